@@ -134,7 +134,7 @@ void run_inject(vf::Ctx &c) {
   vfq::HeapStr tsblock(tsh);
   nostd::shared_ptr<trace::TraceState> ts = trace::TraceState::FromHeader(tsblock.view());
   tsblock.scribble();
-  VFP_CHECK(c, ts->ToHeader() == tsh, "C09:harness:tracestate-precondition", "TraceState::FromHeader/ToHeader does not reproduce the " + vf::sfmt("%zu", tsh.size()) + "-byte test header");
+  VFP_CHECK(c, ts->ToHeader() == tsh, "C09:tracestate:valid-header-not-reproduced", "TraceState::FromHeader/ToHeader does not reproduce the W3C-valid " + vf::sfmt("%zu", tsh.size()) + "-byte test header");
   trace::SpanContext sc = make_sc(t, s, flags, remote, ts);
   context::Context cx = no_span ? context::Context() : ctx_with_span(sc);
   bool valid = !no_span && hex_lower(t.data(), 16) != std::string(32, '0') && hex_lower(s.data(), 8) != std::string(16, '0');
